@@ -10,8 +10,8 @@ LEVEL_TEXT = ('bounded symbolic execution (CrossHair/z3) of the real BasePath co
               'uniquetrees on token-level path lists (exhaustive within the bound)')
 LEVEL_NOTE = ('trusted: CrossHair string models (+ vpx/chplugin.py); posixpath.normpath replaced by '
               "CPython's own pure-Python fallback (the C version would concretise); os.path."
-              'expanduser only exercised on strings not starting with ~; eq/hash agreement follows '
-              'from hash(suffix) by inspection (hashing realises symbolic strings)')
+              'expanduser only exercised on strings not starting with ~; eq/hash agreement is '
+              'checked over enumerated spellings of concrete names (hashing realises symbolic strings)')
 HARNESS = 'vpx.harness.c12'
 FUNCTIONS = ['bfg9000.platforms.basepath.BasePath.__init__', '__normalize', '__normpath', '__join',
              'abspath', 'parent', 'append', 'basename', 'split', 'splitleaf', 'ext', 'addext',
@@ -20,7 +20,7 @@ FUNCTIONS = ['bfg9000.platforms.basepath.BasePath.__init__', '__normalize', '__n
              'bfg9000.path.uniquetrees']
 OUTSIDE = ['strings longer than the bound', '~user expansion', 'absolute and drive-prefixed raw '
            'strings in the relative-path laws (covered only by the separator law)',
-           'hash() of symbolic strings', 'commonprefix of identical directory paths (raises '
+           'hash() of symbolic strings (the eq/hash law is checked over enumerated spellings of concrete names)', 'commonprefix of identical directory paths (raises '
            'ValueError for the root directory: observation, only called with file paths)']
 STUBS = ['posixpath.normpath -> CPython pure-Python fallback', 'os.getcwd -> fixed /w/cur in a_abspath']
 ASSUMPTIONS = ['HOME is not consulted: raw strings starting with ~ are excluded']
@@ -74,6 +74,8 @@ def obligations(tier, kf):
             obs.append(ob.twin())
             for mu in MUTANTS['r_relpath']:
                 obs.append(ob.mutant(mu))
+    hh = Ob('h_eq_hash', {}, 900, desc='eq/hash over enumerated spellings and derivations')
+    obs += [hh, hh.twin(), hh.mutant('path_hash_includes_directory')]
     nn = 2 if tier == 'quick' else 3
     for fn in ('c_commonprefix', 't_uniquetrees'):
         ob = Ob(fn, {'M': 2, 'K': 3, 'NN': nn}, 900,
